@@ -3,7 +3,11 @@ Theorems: coq/theories/Properties_C01.v (Engine.v). Tie: K2 histories."""
 import vlib, k2check
 
 def run(rep, tier, seed):
-    pr = vlib.coq_check('C01'); rep.add_proof(pr)
+    pr = vlib.coq_check('C01')
+    pr2 = vlib.coq_check('C01b')      # lcdb's own input selection always yields guarded steps (Policy.v)
+    pr['theorems'] += pr2['theorems']; pr['ok'] = pr['ok'] and pr2['ok']; pr['closed_count'] = pr.get('closed_count', 0) + pr2.get('closed_count', 0)
+    pr['axioms'] = sorted(set(pr['axioms']) | set(pr2['axioms'])); pr['log'] += pr2['log']; pr['file'] += ' + coq/theories/Properties_C01b.v'
+    rep.add_proof(pr)
     if not pr['ok']:
         rep.violation({'kind': 'proof-broken', 'log': pr['log'][-3000:], 'forbidden': pr['forbidden']}, suffix='no-failing-input-found')
     nh, nops = (32, 90) if tier == 'quick' else (1200, 300)
